@@ -148,12 +148,13 @@ fn type_pool(rng: &mut Rng, n: usize) -> Vec<PType> {
 
 /// One builder history. Returns hash of the op sequence. `prop` selects which oracles report.
 pub fn builder_case(rng: &mut Rng, rep: &mut Report, prop: &str, case_id: u64) -> u64 {
-    let alphabet = rng.range(2, 8);
+    // mostly tiny alphabets (duplicates arrive after unrelated insertions); sometimes tables that grow past 16 / 32 entries
+    let alphabet = if rng.chance(1, 6) { rng.range(17, 40) } else { rng.range(2, 8) };
     let pool = type_pool(rng, alphabet);
     let disciplined = rng.flip();
     let mut b = if rng.flip() { PortableRegistryBuilder::new() } else { PortableRegistryBuilder::default() };
     let mut model: Vec<PType> = Vec::new();
-    let ops = rng.range(1, 60);
+    let ops = if alphabet > 8 { rng.range(20, 120) } else { rng.range(1, 60) };
     let mut trace: Vec<String> = Vec::new();
     let mut h: Vec<u8> = Vec::new();
     let c12 = prop == "C12";
